@@ -20,7 +20,7 @@ def run(ctx):
     ctx.assumptions = ["TLC 1.8 + CommunityModules", "recover() observes every panic of the called operation",
                        "operations are run with fixed representative arguments (clock, valuer, two schemas)"]
     parts = []
-    for part in (["calls", "exprs", "dims", "conds"] + ([] if ctx.quick else ["cross"])):
+    for part in (["calls", "exprs", "dims", "conds", "regex"] + ([] if ctx.quick else ["cross"])):
         cfg = "Gen_c13_%s.cfg" % part
         open(ctx.path("spec", cfg), "w").write('SPECIFICATION Spec\nCONSTANTS Part = "%s"\nCHECK_DEADLOCK FALSE\n' % part)
         cf = ctx.path("cases_%s.ndjson" % part)
